@@ -20,7 +20,7 @@ type Req struct {
 	AtMs   int
 	Seq    uint32
 	Nack   bool
-	Answer string // intime | late | never | foreign | intime-dup | unreachable (the node's own send towards the target fails)
+	Answer string // intime | late | never | foreign | intime-dup | unreachable (the node's own send towards the target fails) | prequeued (the acknowledgement for the relay's own ping is already waiting behind the request: same packet)
 	UseSrc bool   // request carries SourceAddr/SourcePort (reply goes there) or not (reply to the UDP source)
 }
 
@@ -35,7 +35,7 @@ func genRPlan(t *rapid.T) RPlan {
 	p.Reqs = rapid.SliceOfN(rapid.Custom(func(t *rapid.T) Req {
 		at += rapid.SampledFrom([]int{1, 2, 50, 299, 301, 700}).Draw(t, "gap")
 		return Req{AtMs: at, Seq: uint32(rapid.SampledFrom([]int{1, 2, 3, 77, 1 << 20}).Draw(t, "seq")), Nack: rapid.Bool().Draw(t, "nack"),
-			Answer: rapid.SampledFrom([]string{"intime", "intime", "late", "never", "foreign", "intime-dup", "unreachable"}).Draw(t, "answer"), UseSrc: rapid.Bool().Draw(t, "usesrc")}
+			Answer: rapid.SampledFrom([]string{"intime", "intime", "late", "never", "foreign", "intime-dup", "unreachable", "prequeued", "prequeued"}).Draw(t, "answer"), UseSrc: rapid.Bool().Draw(t, "usesrc")}
 	}), 1, 6).Draw(t, "reqs")
 	return p
 }
@@ -128,6 +128,14 @@ func runR(pl RPlan) (res vfx.Result) {
 			ind.SourceAddr, ind.SourcePort, ind.SourceNode = req.IPBytes(), 7946, "req"
 		}
 		sentReqs = append(sentReqs, sent{p.Net.Now(), r})
+		if r.Answer == "prequeued" {
+			// the node numbers its own pings consecutively and nothing else uses the counter here: request k gets number k.
+			// The acknowledgement for that number travels in the same packet, right behind the request, so it is handled
+			// the moment the request has been (whether or not the goroutine that would send the nack has got going).
+			predicted := uint32(len(sentReqs))
+			req.EP.Send(p.Addr(), p.Outer(wire.Compound([][]byte{wire.Encode(wire.IndirectPingMsg, ind), wire.Encode(wire.AckRespMsg, &wire.Ack{SeqNo: predicted})})))
+			continue
+		}
 		req.EP.Send(p.Addr(), p.Outer(wire.Encode(wire.IndirectPingMsg, ind)))
 	}
 	time.Sleep(2 * time.Second)
@@ -183,6 +191,9 @@ func runR(pl RPlan) (res vfx.Result) {
 			if r.Answer == "intime" || r.Answer == "intime-dup" {
 				wantAt = recv + 100*time.Millisecond + 400*time.Microsecond
 			}
+			if r.Answer == "prequeued" && !rp.nack {
+				wantAt = recv
+			}
 			if d := rp.at - wantAt; d < -300*time.Microsecond || d > 300*time.Microsecond {
 				continue
 			}
@@ -195,6 +206,22 @@ func runR(pl RPlan) (res vfx.Result) {
 			break
 		}
 		intime := r.Answer == "intime" || r.Answer == "intime-dup"
+		if r.Answer == "prequeued" {
+			// judged as "answered in time" only when the number was predicted correctly (the ping the target saw carries it)
+			hit := false
+			for _, pg := range pings {
+				if pg.seq == uint32(i+1) && pg.at >= recv && pg.at < recv+time.Millisecond {
+					hit = true
+				}
+			}
+			if hit {
+				intime = true
+				labels["prequeued-hit"] = true
+			} else {
+				labels["prequeued-miss"] = true
+				// an acknowledgement for an unknown number has no effect: the request is simply unanswered
+			}
+		}
 		lab := fmt.Sprintf("%s|nack=%v", r.Answer, r.Nack)
 		labels[lab] = true
 		switch {
